@@ -90,7 +90,12 @@ class HTMLTokenizer(object):
             c = self.stream.char()
 
         # Convert the set of characters consumed to an int.
-        charAsInt = int("".join(charStack), radix)
+        try:
+            charAsInt = int("".join(charStack).lstrip("0") or "0", radix)
+        except ValueError:
+            # int() refuses very long decimal strings (Python >= 3.11); without
+            # its leading zeros such a number is far beyond the last code point
+            charAsInt = 0x110000
 
         # Certain characters get replaced with others
         if charAsInt in replacementCharacters:
